@@ -360,33 +360,43 @@ class Run(object):
     def judge_sample(self, i, k, A, S, handed, args, m_inst, n, n_ans, desc):
         j = self.j
         if True:
-            if A[k] != S[k]:
-                self.violate('consistent', i, 'sample %d: author side saw %s, student side saw %s ; %s'
-                             % (k, A[k], S[k], desc))
-                return True
+            # Samples are identified by VALUE, not by position: every handed-out value is distinct,
+            # so the first independent variable's value names the sample whatever order the
+            # library evaluates samples in.
             row = dict(zip(args, [self.num(x) for x in A[k]]))
+            key = j['ind'][0]
+            hk = [self.num(x) for x in handed.get('smp.' + key, [])]
+            if row[key] not in hk:
+                self.violate('consistent', i, 'evaluation %d: %s=%r was never handed out by its sampling set (%s) ; %s'
+                             % (k, key, row[key], hk[:6], desc))
+                return True
+            sidx = hk.index(row[key])
+            srows = [r for r in S if self.num(r[args.index(key)]) == row[key]]
+            if len(srows) != 1 or srows[0] != A[k]:
+                self.violate('consistent', i, 'sample with %s=%r: author side saw %s, student side saw %s ; %s'
+                             % (key, row[key], A[k], srows, desc))
+                return True
             vals = {}
             for v in j['ind']:
-                if len(handed.get('smp.' + v, ())) <= k:
-                    self.violate('consistent', i, "sample %d: %s=%r but its own sampling set was asked only %d times ; %s"
-                                 % (k, v, row[v], len(handed.get('smp.' + v, ())), desc))
-                    continue
-                want = self.num(handed['smp.' + v][k])
-                if row[v] != want:
-                    self.violate('consistent', i, 'sample %d: %s=%r but its sampler handed out %r ; %s'
-                                 % (k, v, row[v], want, desc))
+                hv = [self.num(x) for x in handed.get('smp.' + v, [])]
+                if len(hv) <= sidx or row[v] != hv[sidx]:
+                    self.violate('consistent', i, 'sample %d: %s=%r but its sampler handed out %r for that sample ; %s'
+                                 % (sidx, v, row[v], hv[sidx] if len(hv) > sidx else None, desc))
                 vals[v] = row[v]
             if m_inst:
-                window = sorted(self.num(x) for x in handed.get('smp.a', [])[k * m_inst:(k + 1) * m_inst])
-                got = sorted(row[nm] for nm in j['numbered'])
-                if got != window:
-                    self.violate('consistent', i, 'sample %d: numbered instances %s have values %s, base '
-                                 'sampler handed out %s ; %s' % (k, j['numbered'], got, window, desc))
+                pool = [self.num(x) for x in handed.get('smp.a', [])]
+                got = [row[nm] for nm in j['numbered']]
+                if any(g not in pool for g in got) or len(set(got)) != len(got):
+                    self.violate('consistent', i, 'sample %d: numbered instances %s have values %s; each must be '
+                                 'its own draw of the base sampling set, which handed out %s ; %s'
+                                 % (sidx, j['numbered'], got, pool[:8], desc))
+                self.used_numbered = getattr(self, 'used_numbered', [])
+                self.used_numbered += got
                 for nm in j['numbered']:
                     vals[nm] = row[nm]
                 self.bump(self.probes, 'numbered instances checked')
             if j['vector']:
-                wrec = handed['smp.w'][k]
+                wrec = handed['smp.w'][sidx]
                 vals['w'] = [self.num(x) for x in wrec['v']]
             want_pi = j.get('uconst', {}).get('pi', math.pi)
             if row['pi'] != want_pi or ('e' in row and not j['shadow_e'] and row['e'] != math.e):
@@ -408,11 +418,17 @@ class Run(object):
                         self.violate('complete', i, 'dependent %s evaluated %d times for %d samples'
                                      % (d['name'], len(D), n * n_ans))
                     elif d['form'] >= 0:
-                        saw = [self.num(x) for x in D[k]]
                         exp = [self.pyval(op, vals) for op in d['ops']]
-                        if any(abs(a - b) > 1e-9 * (1 + abs(b)) for a, b in zip(saw, exp)):
-                            self.violate('consistent', i, "sample %d: formula of %s saw operands %s, the sample's "
-                                         'values are %s ; %s' % (k, d['name'], saw, exp, desc))
+                        found = False
+                        for drow in D:
+                            saw = [self.num(x) for x in drow]
+                            if all(abs(a - b) <= 1e-9 * (1 + abs(b)) for a, b in zip(saw, exp)):
+                                found = True
+                                break
+                        if not found:
+                            self.violate('consistent', i, "sample %d: no evaluation of the formula of %s saw this sample's "
+                                         'operand values %s (it saw %s) ; %s'
+                                         % (sidx, d['name'], exp, [[self.num(x) for x in r] for r in D][:4], desc))
             if len(j['deps']) >= 3:
                 self.bump(self.probes, 'dependency chain of 3+ resolved')
         return False
